@@ -11,7 +11,7 @@ from ..common import Report, main_wrapper, scratch, eff_seed, run_tlc, Machinery
 from .. import rangeclaims
 from .args import parse
 
-MODULES = ["harness.corpus.indexgen", "harness.corpus.basic", "harness.corpus.memory"]
+MODULES = ["harness.corpus.indexgen", "harness.corpus.indexmat", "harness.corpus.basic", "harness.corpus.memory"]
 
 
 def main():
@@ -26,7 +26,8 @@ def main():
     for r in recs:
         for c in r["claims"]:
             raw += 1
-            key = json.dumps([c["e"], c["env"], c["base"], c["haslo"], c["lo"], c["hashi"], c["hi"]], sort_keys=True)
+            key = json.dumps([c["kind"], c["e"], c["env"], c["base"], c["haslo"], c["lo"], c["hashi"], c["hi"], c.get("preds")],
+                             sort_keys=True)
             if key in seen:
                 continue
             seen.add(key)
@@ -45,8 +46,8 @@ def main():
             chunk = nontrivial[k:k + CH]
             path = os.path.join(d, f"claims_{k}.json")
             with open(path, "w") as f:
-                json.dump([{kk: c[kk] for kk in ("kind", "e", "e2", "base", "env", "w", "haslo", "lo", "hashi", "hi")}
-                           for c in chunk], f)
+                json.dump([dict({kk: c[kk] for kk in ("kind", "e", "e2", "base", "env", "w", "haslo", "lo", "hashi", "hi")},
+                                preds=c.get("preds", [])) for c in chunk], f)
             r = run_tlc("IndexExpr", "IndexExpr.cfg", d, env={"EXO_CLAIMS": path}, timeout=2400)
             if not r.ok:
                 raise MachineryError("TLC failed on IndexExpr:\n" + tlc_failure_excerpt(r.stdout))
